@@ -15,6 +15,7 @@ package props
 // property statement does not clearly cover them).
 
 import (
+	"bytes"
 	"encoding/json"
 	"fmt"
 	"reflect"
@@ -298,6 +299,12 @@ func (b *c20Builder) tunnelAgentConfig(kind, cpath string) json.RawMessage {
 		obj["standby"] = map[string]interface{}{"endpoint": map[string]interface{}{"tls_context": ctx(".standby.endpoint", "private_key")}, "weight": 1}
 	}
 	raw, _ := json.Marshal(obj)
+	if b.rng.Chance(1, 4) {
+		// the same document with its key names written with JSON escapes ("private\u005fkey" IS the name private_key to every
+		// JSON decoder, encoding/json included): an opaque document may arrive in any spelling
+		raw = bytes.ReplaceAll(raw, []byte(`"private_key"`), []byte(`"private\u005fkey"`))
+		raw = bytes.ReplaceAll(raw, []byte(`"tls_context"`), []byte(`"tls\u005fcontext"`))
+	}
 	return raw
 }
 
